@@ -1,6 +1,7 @@
 /- Monitor-update gating monitor (C09): per (node, channel) the ids handed to chain::Watch, which of
    them are still in flight, and which peer messages may be released.  Events are what a
    chain::Watch / message observer sees.  No Mathlib. -/
+import LdkModel.Generated.MonGate
 namespace Ldk.MonGate
 
 inductive Kind where
@@ -58,3 +59,180 @@ def run (s : St) : List Ev → Option St
     | some s' => run s' es
 
 end Ldk.MonGate
+
+/-! ## Channel-side model of the monitor-update gate (C09, extension of Model/MonGate.lean): what a FundedChannel + its
+   ChannelManager peer-state + the ChainMonitor do with a ChannelMonitorUpdate and with everything that must wait for it.
+   Every DECISION is a call into Generated/MonGate.lean (re-translated from channel.rs / channelmanager.rs on every run);
+   what is hand-mirrored here is the plumbing between them (which decision follows which) and the resend order — tied by
+   the differential run (`gate` ops of driver `mongate`, compared with the hook dump of the real channel).  No Mathlib. -/
+namespace Ldk.MonGate.Gate
+open Ldk.MonGate
+
+/-- what leaves the channel: an update handed to chain::Watch, or something released to the peer / the manager -/
+inductive Out where
+  | handed (id : Nat) (inProgress : Bool)
+  | raa | cs | ready
+  /-- channel_ready retransmitted by channel_reestablish in state ChannelReady: NOT gated in the code (KF-C09-1) -/
+  | readyResent
+  | adds (l : List Nat) | fwds (l : List Nat) | fails (l : List Nat) | fulfills (l : List Nat)
+  deriving DecidableEq, Repr, Inhabited
+
+/-- released items whose release the property ties to the completion of monitor updates -/
+def Out.gated : Out → Bool
+  | .handed _ _ => false
+  | .readyResent => false
+  | _ => true
+
+structure Chan where
+  /-- ChannelContext.latest_monitor_update_id -/
+  latest : Nat
+  /-- ids of ChannelContext.blocked_monitor_updates, in order -/
+  blocked : List Nat
+  /-- ids in PeerState.in_flight_monitor_updates, in order -/
+  inFlight : List Nat
+  /-- ids the ChainMonitor still reports as pending (Watch returned InProgress, not yet completed) -/
+  cmPending : List Nat
+  /-- ghost: the id the next update handed to chain::Watch must carry -/
+  nextHand : Nat
+  /-- ChannelState MONITOR_UPDATE_IN_PROGRESS -/
+  paused : Bool
+  pend : Gen.Pend
+  /-- ChannelState PEER_DISCONNECTED -/
+  disconnected : Bool
+  /-- resend_order == CommitmentFirst -/
+  csFirst : Bool
+  deriving Repr, Inhabited, DecidableEq
+
+def Chan.init (k : Nat) : Chan :=
+  { latest := k, blocked := [], inFlight := [], cmPending := [], nextHand := k + 1, paused := false,
+    pend := Gen.Pend.empty, disconnected := false, csFirst := false }
+
+inductive Op where
+  /-- commitment_signed received (commitment_signed_update_monitor); `ip`: chain::Watch answers InProgress -/
+  | csRecv (needCommit awaitingRevoke ip : Bool)
+  /-- revoke_and_ack received; the vectors are what this RAA made irrevocable / forwardable -/
+  | raaRecv (freed requireCommit hold : Bool) (adds fwds fails fulfills : List Nat) (ip : Bool)
+  /-- claim_funds on an inbound HTLC of this channel (get_update_fulfill_htlc_and_commit) -/
+  | claim (updateBlocked ip : Bool)
+  /-- send_commitment (send_htlc_and_commit / holding cell / update_fee): only when not paused -/
+  | send (ip : Bool)
+  /-- any other non-preimage producer of the census (shutdown / get_shutdown: ShutdownScript update): paused, then queued -/
+  | other (ip : Bool)
+  /-- the persister reports update `id` complete (ChainMonitor::channel_monitor_updated) -/
+  | complete (id : Nat)
+  /-- the RAA blocker is gone (handle_monitor_update_release → unblock_next_blocked_monitor_update) -/
+  | unblock (ip : Bool)
+  /-- the funding reached its depth and a channel_ready is due (check_get_channel_ready) -/
+  | confirm
+  | disconnect
+  /-- peer's channel_reestablish: it lost our revoke_and_ack / commitment_signed; `readyCase` 1 = state AwaitingChannelReady
+      with OUR_CHANNEL_READY, 2 = state ChannelReady with both sides on the initial commitment number, else none -/
+  | reestablish (needRaa needCs : Bool) (readyCase : Nat)
+  deriving Repr, Inhabited
+
+/-- messages / actions regenerated by monitor_updating_restored, in the order handle_channel_resumption emits them -/
+def outsOf (r : Gen.Restored) (csFirst : Bool) : List Out :=
+  (if r.ready then [.ready] else []) ++
+  (if csFirst then (if r.cs then [.cs] else []) ++ (if r.raa then [.raa] else [])
+   else (if r.raa then [.raa] else []) ++ (if r.cs then [.cs] else [])) ++
+  (if r.adds.isEmpty then [] else [.adds r.adds]) ++ (if r.fwds.isEmpty then [] else [.fwds r.fwds]) ++
+  (if r.fails.isEmpty then [] else [.fails r.fails]) ++ (if r.fulfills.isEmpty then [] else [.fulfills r.fulfills])
+
+/-- mirrors ChannelManager::try_resume_channel_post_monitor_update -/
+def resume (c : Chan) : Chan × List Out :=
+  if Gen.resumeBlocked c.blocked.length then (c, [])
+  else
+    let pr := Gen.restored c.pend c.disconnected
+    ({ c with pend := pr.1, paused := false }, outsOf pr.2 c.csFirst)
+
+/-- mirrors ChannelManager::handle_new_monitor_update: hand `id` to chain::Watch, track it, resume when all complete -/
+def handOver (c : Chan) (id : Nat) (ip : Bool) : Chan × List Out :=
+  let m := Gen.mgrNewUpdate c.inFlight id (!ip)
+  let c1 := { c with inFlight := m.1, cmPending := if ip then c.cmPending ++ [id] else c.cmPending, nextHand := id + 1 }
+  if m.2 && c1.paused then
+    let r := resume c1
+    (r.1, .handed id ip :: r.2)
+  else (c1, [.handed id ip])
+
+def pauseWith (c : Chan) (flags : Bool × Bool × Bool) (v : List Nat × List Nat × List Nat) : Chan :=
+  { c with pend := Gen.paused c.pend flags.1 flags.2.1 flags.2.2 v.1 v.2.1 v.2.2, paused := c.paused || Gen.pausedSetsInProgress }
+
+/-- push_ret_blockable_mon_update, then ChannelManager::handle_new_monitor_update for what it hands back -/
+def queueOrHand (c1 : Chan) (id : Nat) (ip : Bool) : Chan × List Out :=
+  let pb := Gen.pushBlockable c1.blocked id
+  match pb.2 with
+  | none => ({ c1 with blocked := pb.1 }, [])
+  | some i => handOver { c1 with blocked := pb.1 } i ip
+
+/-- commitment_signed_update_monitor up to the point where the update is queued / handed over -/
+def csPre (c : Chan) (nc ar : Bool) : Chan :=
+  if c.paused then
+    let r := Gen.csRecvWhilePaused c.pend nc ar
+    { c with pend := r.1, latest := c.latest + 1, csFirst := !r.2 }
+  else
+    { pauseWith c (Gen.csRecvPauseArgs nc ar) ([], [], []) with latest := c.latest + 1, csFirst := !Gen.csRecvBuildsCs nc ar }
+
+def step (c : Chan) : Op → Chan × List Out
+  | .csRecv nc ar ip => queueOrHand (csPre c nc ar) (c.latest + 1) ip
+  | .raaRecv freed rc hold adds fw fl ff ip =>
+    let id := c.latest + 1
+    let a := Gen.raaPauseArgs freed rc fw fl ff
+    let c1 : Chan := { pauseWith { c with pend := Gen.raaAppendAdds c.pend adds } a.1 a.2 with
+                       latest := id, csFirst := if freed || rc then false else c.csFirst }
+    if Gen.raaReleaseMonitor c.blocked.isEmpty hold then handOver c1 id ip
+    else ({ c1 with blocked := c1.blocked ++ [id] }, [])
+  | .claim ub0 ip =>
+    let ub := ub0 || !c.blocked.isEmpty
+    let own := c.latest + 1
+    let c1 : Chan := { pauseWith c (Gen.claimPauseArgs ub) ([], [], []) with latest := own, csFirst := if ub then c.csFirst else false }
+    if Gen.claimBuildsCs c.blocked.isEmpty ub then handOver c1 own ip
+    else
+      let j := Gen.claimJump c.blocked own
+      handOver { c1 with blocked := j.2 } j.1 ip
+  | .send ip =>
+    if c.paused || c.disconnected then (c, [])
+    else queueOrHand { pauseWith c (false, true, false) ([], [], []) with latest := c.latest + 1, csFirst := false } (c.latest + 1) ip
+  | .other ip =>
+    queueOrHand { pauseWith c Gen.otherPauseArgs ([], [], []) with latest := c.latest + 1 } (c.latest + 1) ip
+  | .complete id =>
+    if c.cmPending.contains id then
+      let cm := c.cmPending.erase id
+      if cm.isEmpty then
+        let l := Gen.mgrRetain c.inFlight (c.nextHand - 1)
+        let c1 := { c with cmPending := cm, inFlight := l }
+        if Gen.mgrStillInFlight l.length then (c1, [])
+        else if c1.paused then resume c1 else (c1, [])
+      else ({ c with cmPending := cm }, [])
+    else (c, [])
+  | .unblock ip =>
+    match Gen.unblockNext c.blocked with
+    | none => (c, [])
+    | some (i, b) => handOver { c with blocked := b } i ip
+  | .confirm =>
+    let r := Gen.checkReady c.paused c.disconnected
+    ({ c with pend := { c.pend with ready := if r.1 then true else c.pend.ready } }, if r.2 then [.ready] else [])
+  | .disconnect => ({ c with disconnected := true }, [])
+  | .reestablish needRaa needCs readyCase =>
+    let bn := !c.blocked.isEmpty
+    let rr : Option Bool × Bool := if needRaa then Gen.reestRaa c.paused bn else (some false, false)
+    let rc : Option Bool × Bool := if needCs then Gen.reestCs c.paused bn else (some false, false)
+    let p := { c.pend with raa := rr.1.getD c.pend.raa, cs := rc.1.getD c.pend.cs }
+    let rdy : List Out :=
+      if readyCase == 1 then (if Gen.reestAwaitingReadyHeld true c.paused then [] else [.ready])
+      else if readyCase == 2 then (if Gen.reestReadyResent true true true c.paused then [.readyResent] else [])
+      else []
+    let msgs : List Out :=
+      if readyCase == 1 then []
+      else if c.csFirst then (if rc.2 then [.cs] else []) ++ (if rr.2 then [.raa] else [])
+      else (if rr.2 then [.raa] else []) ++ (if rc.2 then [.cs] else [])
+    ({ c with pend := p, disconnected := false }, rdy ++ msgs)
+
+/-- run an op list, collecting the outputs of every step -/
+def run (c : Chan) : List Op → Chan × List Out
+  | [] => (c, [])
+  | op :: ops =>
+    let r := step c op
+    let r2 := run r.1 ops
+    (r2.1, r.2 ++ r2.2)
+
+end Ldk.MonGate.Gate
